@@ -89,11 +89,13 @@ class Machine:
             'cmp_frac': 0, 'cmp_nonzero_count': 0, 'print_char': 0, 'print_num': 0, 'print_frac': 0,
             'print_nan': 0, 'nan_pops': 0, 'nan_dropped_on_empty': 0, 'multi_operand': 0,
             'fractions_made': 0, 'negatives_made': 0, 'push_stack0': 0, 'heart_after_heart': 0, 'jump_back_over_first_read': 0, 'heart_return_to_self': 0, 'forward_jumps': 0, 'pops_of_own_values_from_stack0': 0,
+            'jump_from_first_command': 0, 'heart_return_to_first_command': 0, 'two_labels_one_command': 0, 'jump_to_multi_label_command_after_read': 0,
         }
         self.cmp_log = None   # optional list of (value, count, op, went_left)
         self.last_jump_was_heart = False
         self.first_read_loc = None
         self.cur_loc = 0
+        self.labels_at = {}
 
     # -- state helpers -------------------------------------------------------------------------
     def clone(self):
@@ -115,6 +117,7 @@ class Machine:
         m.last_jump_was_heart = self.last_jump_was_heart
         m.first_read_loc = self.first_read_loc
         m.cur_loc = self.cur_loc
+        m.labels_at = dict(self.labels_at)
         return m
 
     def nonempty_stacks(self):
@@ -273,6 +276,9 @@ class Machine:
                 if tgt is None:
                     self.labels[key] = loc
                     self.st['labels_set'] += 1
+                    self.labels_at[loc] = self.labels_at.get(loc, 0) + 1
+                    if self.labels_at[loc] == 2:
+                        self.st['two_labels_one_command'] += 1
                 elif tgt != loc:
                     self.latest = loc
                     self.st['jumps'] += 1
@@ -281,6 +287,10 @@ class Machine:
                         self.st['jump_back_over_first_read'] += 1
                     if tgt > loc:
                         self.st['forward_jumps'] += 1
+                    if loc == 0:
+                        self.st['jump_from_first_command'] += 1
+                    if self.first_read_loc is not None and self.labels_at.get(tgt, 0) >= 2:
+                        self.st['jump_to_multi_label_command_after_read'] += 1
                     return tgt
             elif self.latest is not None:
                 self.st['heart_returns'] += 1
@@ -289,6 +299,8 @@ class Machine:
                     self.st['heart_after_heart'] += 1
                 if self.latest == loc:
                     self.st['heart_return_to_self'] += 1
+                if self.latest == 0:
+                    self.st['heart_return_to_first_command'] += 1
                 self.last_jump_was_heart = True
                 return self.latest
         return loc + 1
